@@ -248,9 +248,23 @@ def project_case(sandbox: Path, case: dict) -> dict:
     if (outside / "work").exists():
         shutil.rmtree(outside / "work")
     (outside / "work").mkdir()
-    if pre in ("empty", "stale"):
+    made_by = ""
+    if pre == "twin":
+        # the stale state is what an EARLIER, successful write_project of a twin request left behind: same project, the source
+        # differing only in its line endings.  For the specification this is one more stale state.
+        src0 = case["src"]
+        twin = (src0.replace("\r\n", "\n") if "\r\n" in src0 else src0.replace("\n", "\r\n") if "\n" in src0
+                else src0.replace("\r", "\n") if "\r" in src0 else src0 + "\n")
+        try:
+            pio.write_project(proj, twin, newstr(case["port"]), platform=newstr(case["platform"]), board=newstr(case["board"]),
+                              lib_deps=[newstr(x) for x in case["libs"]])
+            made_by = "earlier-call-with-other-line-endings"
+        except Exception:  # noqa: BLE001   (an invalid request writes nothing: fall back to the hand-made stale state)
+            shutil.rmtree(proj, ignore_errors=True)
+        pre = "stale"
+    if pre in ("empty", "stale") and not proj.exists():
         proj.mkdir(parents=True)
-    if pre == "stale":
+    if pre == "stale" and not made_by:
         (proj / "src").mkdir()
         (proj / "src" / "main.cpp").write_text("// OLD SKETCH, much longer than the new one\n" * 50)
         (proj / "platformio.ini").write_text("[env:old]\nplatform = oldplatform\nboard = old\nframework = arduino\n"
